@@ -22,6 +22,7 @@ import EngineModel.Spec.Members
 import EngineModel.Spec.Ordered
 import EngineModel.Db.V2Crates
 import EngineModel.Db.V2Wf
+import EngineModel.Spec.SqlCanon
 
 open EngineModel EngineModel.Text EngineModel.Spec
 
@@ -396,7 +397,17 @@ def peLine (st : St) (cmd ans : List String) : M St := do
     pure st
   | _ => throw "unknown pe command"
 
+/-- `ddl.canon <hex sql>`: the DDL text modulo whitespace, comments and identifier quoting (Spec/SqlCanon.lean),
+rendered back to text — used by tools/tr_v2ddl.py to canonicalise the catalog entries of the 2.x schemas. -/
+def ddlCanon (h : String) : String :=
+  match parseHexBytes h with
+  | some b =>
+    let s : List Char := b.map fun x => Char.ofNat x.toNat
+    "ok " ++ hexBytes ((String.ofList (Spec.SqlCanon.render (Spec.SqlCanon.canonChars s))).toUTF8.toList)
+  | none => "bad-op args"
+
 def step (st : St) (cmd : String) (args : List String) : St × String :=
+  if cmd == "ddl.canon" then (st, match args with | [h] => ddlCanon h | _ => "bad-op args") else
   let toks := cmd :: args
   let c := toks.takeWhile (· ≠ "=>")
   let ans := (toks.dropWhile (· ≠ "=>")).drop 1
